@@ -130,6 +130,10 @@ def who_is_returned(ctx):
     ctx.ob(ok, u, 'And evaluates every child on the target and yields the last result')
     hs = [n for n in cfg.nodes if n.kind == 'handler']
     ctx.ob(not hs, u, 'And lets the first failing child reject (no handler)')
+    jumps = [n for n in u.own_nodes() if isinstance(n, (ast.Break, ast.Continue))]
+    lps = [n for n in u.own_nodes() if isinstance(n, ast.For)]
+    ctx.ob(not jumps and len(lps) == 1 and not [r for r in ast.walk(lps[0]) if isinstance(r, ast.Return)], u,
+           'And evaluates every child (no break / continue / return in its loop)', '%s' % [norm(j) for j in jumps])
     inits = [n for n in u.node.body if isinstance(n, ast.Assign) and rets and is_name(n.targets[0], rets[0].value.id)]
     ctx.ob(len(inits) == 1 and is_name(inits[0].value, u.params[1]), u, 'an empty And yields the target')
     # Or: the evaluator call is the returned expression
@@ -230,7 +234,12 @@ def defaults(ctx):
     loops = [n for n in u.own_nodes() if isinstance(n, ast.For)]
     dflt = [n for n in u.own_nodes() if isinstance(n, ast.Attribute) and n.attr == 'default']
     body = set(ast.walk(loops[0])) if loops else set()
-    ctx.ob(bool(dflt) and all(d not in body for d in dflt), u, 'Switch consults its default only after the case loop')
+    after = set()
+    if loops:
+        for st in u.node.body[u.node.body.index(loops[0]) + 1:]:
+            after |= set(ast.walk(st))
+    ctx.ob(bool(dflt) and all(d in after for d in dflt), u, 'Switch consults its default only after the case loop',
+           '' if dflt and all(d in after for d in dflt) else 'self.default is read before / inside the loop')
     tail = u.node.body[u.node.body.index(loops[0]) + 1:] if loops else []
     ok = len(tail) == 2 and isinstance(tail[0], ast.If) and norm(tail[0].test) == 'self.default is not _MISSING' \
         and isinstance(tail[1], ast.Raise)
